@@ -3474,6 +3474,14 @@ def cli_main():
         path = os.path.join(root, 'definitions')
         include_dirs.append(path)
 
+    # validate the hex offset before anything gets written
+    hex_offset = None
+    if args.hex_offset:
+        try:
+            hex_offset = int(args.hex_offset, base=0)
+        except ValueError:
+            raise SystemExit('invalid hex offset: {}'.format(args.hex_offset))
+
     constants = {}
     labels = {}
     try:
@@ -3481,6 +3489,10 @@ def cli_main():
         binary = assemble(input_asm, constants=constants, labels=labels, compress=args.compress, include_dirs=include_dirs)
     except AssemblerError as e:
         raise SystemExit(e)
+
+    # the image has to fit into the 32-bit address space of the hex file
+    if hex_offset is not None and (hex_offset < 0 or hex_offset + len(binary) > 2**32):
+        raise SystemExit('invalid hex offset: {}'.format(args.hex_offset))
 
     if args.verbose:
         for k, v in constants.items():
@@ -3499,15 +3511,10 @@ def cli_main():
         out_bin.write(binary)
 
     # output an additional file in the Intel HEX format at the given offset
-    if args.hex_offset:
+    if hex_offset is not None:
         from intelhex import bin2hex
 
-        try:
-            offset = int(args.hex_offset, base=0)
-        except:
-            raise SystemExit('invalid hex offset: {}'.format(args.hex_offset))
-
-        bin2hex(args.output, args.output + '.hex', offset)
+        bin2hex(args.output, args.output + '.hex', hex_offset)
 
 
 if __name__ == '__main__':
